@@ -94,8 +94,8 @@ def corrupt(lines, how):
                 return ev, ("C03", "model-ran-extra")
     if how == "explain-reason":
         for e in ev:
-            if e["e"] == "pl" and e.get("x", {}).get("kind") == "norec":
-                e["x"]["kind"] = "changed"
+            if e["e"] == "pl" and e.get("x", {}).get("kind") == "missing":
+                e["x"]["kind"] = "norec"
                 return ev, ("CONF", "explain")
     if how == "explain-listing":
         for e in ev:
@@ -131,6 +131,23 @@ def run():
         ok &= expect_violation("N2Hist RuleBug=%s" % b, "N2Hist.tla", "MC_Hist_bug_%s.cfg" % b, inv)
     ok &= expect_violation("N2Hist RuleBug=noreload", "N2Hist.tla", "MC_Hist_bug_noreload.cfg", "C02")
     ok &= expect_violation("N2Log Recovery=asis", "N2Log.tla", "MC_Log_asis.cfg", "AlwaysLoadable")
+    # the Apalache check must object when the arithmetic of BuildStates::set is wrong
+    ad = os.path.join(D.WORK, "selftest-apalache-%d" % os.getpid())
+    shutil.rmtree(ad, ignore_errors=True); os.makedirs(ad)
+    core = open(os.path.join(D.SPEC, "SchedCore.tla")).read()
+    bug = core.replace("- Cardinality({s \\in DOMAIN new : s \\notin phony /\\ iv.st[s] = x})",
+                       "- Cardinality({s \\in DOMAIN new : iv.st[s] = x})")
+    assert bug != core
+    open(os.path.join(ad, "SchedCore.tla"), "w").write(bug)
+    for f in ("SchedInd.tla", "SchedIndMC4.tla"):
+        shutil.copy(os.path.join(D.SPEC, "apalache", f), os.path.join(ad, f))
+    p = subprocess.run(["timeout", "900", "apalache-mc", "check", "--init=IndInit", "--length=1", "--next=Next",
+                        "--inv=IndInv", "--cinit=CInit", "--out-dir=" + ad + "/out", "SchedIndMC4.tla"], cwd=ad,
+                       stdout=subprocess.PIPE, stderr=subprocess.STDOUT, text=True)
+    found = "The outcome is: Error" in p.stdout and "invariant" in p.stdout
+    print("%-34s %s" % ("SchedCore: phony steps uncounted", "counterexample found by Apalache, as required" if found else "NO COUNTEREXAMPLE"))
+    ok &= found
+    shutil.rmtree(ad, ignore_errors=True)
     print("== binding of the trace specification")
     D.build_harness()
     import sys
@@ -167,6 +184,51 @@ def run():
         hit = [x for x in v["viol"] if x[0] == prop and (tag is None or x[1] == tag)]
         print("%-34s %s" % ("corruption " + how, "label %s raised (%s)" % (prop, hit[0][1]) if hit else "NOT DETECTED"))
         ok &= bool(hit)
+    print("== binding of the real-binary specification (ExecObs)")
+    S = {"a": {"want": "ok", "ntok": 3, "tail": 0, "note": "", "hide": False, "free": False},
+         "b": {"want": "fail", "ntok": 2, "tail": 0, "note": "", "hide": False, "free": False}}
+    good = [["msg", "a"], ["msg", "b"], ["msg", "a"], ["pay", "a", 0, 2, 0], ["failed", "b"], ["pay", "b", 0, 1, 0]]
+    frame = {"status": True, "bar": "=" * 10 + "-" * 5 + " " * 25, "done": 1, "total": 4, "failed": 0, "run": 2,
+             "open": 3, "lines": [["task", 20, True], ["last", 12, True], ["task", 20, True]], "up": 4}
+    cmd = {"e": "xcmd", "step": "a", "want": "echo", "argv": ["/bin/sh", "-c", "echo"], "cwd": "/x", "wantcwd": "/x",
+           "stdin": "EOF", "fd0": "/dev/null", "probed": True, "fds": [0, 1, 2], "same12": True, "dirok": True,
+           "hasrsp": False, "rspwant": "", "rspgot": ""}
+    def con(items, exit=1):
+        return {"e": "xcon", "items": items, "steps": S, "ran": ["a", "b"], "exit": exit, "fancy": False}
+    cases = [
+        ("accepted: console", con(good), None),
+        ("output in two pieces", con(good[:3] + [["pay", "a", 0, 1, 0], ["pay", "a", 2, 2, 0]] + good[4:]), ("C16", "console-output")),
+        ("output shown twice", con(good + [["msg", "a"], ["pay", "a", 0, 2, 0]]), ("C16", "console-output")),
+        ("output missing", con(good[:2] + good[4:]), ("C16", "console-output")),
+        ("summary after a failure", con(good + [["sum", "ran", 1]]), ("CONF", "console-summary-on-failure")),
+        ("wrong summary count", {"e": "xcon", "items": [["msg", "a"], ["pay", "a", 0, 2, 0], ["sum", "ran", 2]],
+                                 "steps": S, "ran": ["a"], "exit": 0, "fancy": False}, ("C19", "console-summary")),
+        ("foreign text", con(good[:1] + [["other", "garbage"]] + good[1:]), ("CONF", "console-foreign-text")),
+        ("accepted: frame", {"e": "xfancy", "cols": 20, "j": 2, "frames": [frame]}, None),
+        ("bar of 39 cells", {"e": "xfancy", "cols": 20, "j": 2, "frames": [dict(frame, bar=frame["bar"][1:])]}, ("C20", "frame-bar-width")),
+        ("task line wider than the terminal", {"e": "xfancy", "cols": 20, "j": 2,
+                                               "frames": [dict(frame, lines=[["task", 21, True], ["last", 12, True], ["task", 20, True]])]}, ("C20", "frame-line-width")),
+        ("line cut inside a character", {"e": "xfancy", "cols": 20, "j": 2,
+                                         "frames": [dict(frame, lines=[["task", 20, False], ["last", 12, True], ["task", 20, True]])]}, ("C20", "frame-line-width")),
+        ("cursor-up count", {"e": "xfancy", "cols": 20, "j": 2, "frames": [dict(frame, up=3)]}, ("CONF", "frame-cursor-up")),
+        ("accepted: command", cmd, None),
+        ("foreign descriptor", dict(cmd, fds=[0, 1, 2, 5]), ("C16", "descriptors")),
+        ("stdin not at end of file", dict(cmd, stdin="DATA"), ("C16", "stdin")),
+    ]
+    for name, ev, want in cases:
+        tp = os.path.join(wdir, "x.trace")
+        with open(tp, "w") as f:
+            f.write(json.dumps({"e": "xscn", "id": "self"}) + "\n" + json.dumps(ev) + "\n")
+        rc, out, wall = D.run_tlc(D.SPEC + "/ExecObs.tla", D.SPEC + "/ExecObs.cfg", workers=1,
+                                  env_extra={"TRACE": tp}, timeout=300, xmx="2g")
+        v = D.parse_verdict(out)
+        if v is None:
+            print("%-34s TLC FAILED\n%s" % (name, out[-800:])); ok = False; continue
+        labels = {(x[0], x[1]) for x in v["viol"]}
+        good_case = (labels == set()) if want is None else (want in labels)
+        print("%-34s %s" % (name, ("accepted" if want is None else "label %s %s raised" % want) if good_case
+                            else "UNEXPECTED %s" % sorted(labels)))
+        ok &= good_case
     shutil.rmtree(wdir, ignore_errors=True)
     print("selftest", "passed" if ok else "FAILED")
     return 0 if ok else 2
